@@ -30,6 +30,7 @@ func init() {
 			{ID: "C12.R12", Text: "the position a reopen resumes from is the acknowledged event's own: the function stored into ListenerContext.Ack moves the position to the offset of the event it was created for, exactly once (same rule as C04.R10)", Run: ackMoves},
 			{ID: "C12.R13", Text: "a re-open is admitted only while its session lasts: the close ends the session before it closes the streams and empties the position map (same rule as C13.R28)", Run: sessionAdvancedFirst},
 			{ID: "C12.R14", Text: "a transient end stays transient after a rebalance: Rebalance closes the streams with Close(false), so the flag the end listener reads is not left raised (same rule as C15.R20)", Run: c11r3},
+			{ID: "C12.R15", Text: "every transient end gets its own re-open request: openStream waits for nothing but its request and never reports success without making it (same rule as C11.R26)", Run: openDoesNotWait},
 			{ID: "C12.R6", Text: "a reopened vBucket keeps being streamed: the observer that reopen reuses has its delivery/end switches thrown only by Stream.Close (same rule as C03.R6)", Run: switchOwner},
 		},
 	})
